@@ -287,6 +287,22 @@ type crashSpec struct {
 	JobAt string `json:"job_at,omitempty"`
 }
 
+// killInstant: wall-clock time of the last crash record of the most recent mrp
+// process in the hook trace (records carry CLOCK_MONOTONIC nanoseconds).
+func killInstant(trace []vrun.TraceRec) time.Time {
+	pid := lastMrpPid(trace)
+	var t int64
+	for _, r := range trace {
+		if r.Pid == pid && r.Crash != "" && r.Proc == "mrp" {
+			t = r.T
+		}
+	}
+	if t == 0 {
+		return time.Time{}
+	}
+	return time.Now().Add(-time.Duration(vrun.Mono() - t))
+}
+
 func lastMrpPid(trace []vrun.TraceRec) int {
 	pid := 0
 	for _, t := range trace {
@@ -397,6 +413,12 @@ func runCrashCase(c *vf.Ctx, fp *faultProgram, idx int, specs []crashSpec) *cras
 		}
 		r := cs.Run(opts)
 		exitWall := time.Now()
+		// "before the interruption" is before the instant of the kill, not before the
+		// harness noticed the exit (a job that outlives mrp for a moment may complete in
+		// between): the hook records the monotonic time just before it sends the signal
+		if kt := killInstant(cs.Trace()); !kt.IsZero() && kt.Before(exitWall) {
+			exitWall = kt
+		}
 		if si > 0 {
 			checkReexec()
 		}
